@@ -282,6 +282,9 @@ Qed.
 Theorem c19_writer_loop_is_the_source : forall b18 m cfg w ev,
   eval_iteration (post b18) m cfg ev src_writer_loop w = step (post b18) m cfg w ev.
 Proof. exact writer_loop_tie. Qed.
+Theorem c19_writer_thread_is_the_source : forall b18 m cfg evs w,
+  run_events_src (post b18) m cfg w evs = run_events (post b18) m cfg w evs.
+Proof. exact writer_thread_tie. Qed.
 Theorem c19_file_name_is_the_source : forall t n,
   eval_fmt (name_env t n) src_logfile_name_fmt = Some (46 :: fmt_compact t ++ 45 :: dec n).
 Proof. exact logfile_name_tie. Qed.
@@ -338,3 +341,4 @@ Print Assumptions c19_delete_oldest_is_the_source.
 Print Assumptions c19_deletion_loops_are_the_source.
 Print Assumptions c19_push_is_the_source.
 Print Assumptions c19_file_set_translation_complete.
+Print Assumptions c19_writer_thread_is_the_source.
